@@ -56,7 +56,7 @@ func runSolver(ctx context.Context, s solverSpec, file string, timeoutS int) sol
 // solve decides one obligation: z3-new first, then the other solvers in parallel.
 func solve(dir string, ob *Obligation, idx int, timeoutS int, second bool) {
 	file := filepath.Join(dir, fmt.Sprintf("ob%04d.smt2", idx))
-	text := ob.Script.render(ob.Goal, false)
+	text := "; obligation: " + ob.Name + " :: " + strings.ReplaceAll(ob.Text, "\n", " ") + "\n" + ob.Script.render(ob.Goal, false)
 	if err := os.WriteFile(file, []byte(text), 0o644); err != nil {
 		ob.Status, ob.Output = "unknown", err.Error()
 		return
